@@ -46,7 +46,7 @@ class GaussianKDE(DensityEstimator):
         cross_validation: bool = False,
         max_cv_samples=5000,
     ):
-        self.sample = sort(array(sample).flatten())  # sorted array of the samples
+        self.sample = sort(array(sample, dtype=float).flatten())  # sorted array of the samples
         # maximum number of samples to be used for cross-validation
         self.max_cvs = max_cv_samples
 
